@@ -1,19 +1,182 @@
 package main
 
 import (
+	"flag"
 	"fmt"
-	"golang.org/x/tools/go/packages"
-	"golang.org/x/tools/go/ssa"
-	"golang.org/x/tools/go/ssa/ssautil"
+	"os"
+	"sort"
+	"strings"
+	"sync"
+)
+
+var (
+	repoDir  = "/repo"
+	verifDir = "/verif"
 )
 
 func main() {
-	cfg := &packages.Config{Mode: packages.LoadAllSyntax, Dir: "/repo", BuildFlags: []string{"-tags=verif"}}
-	pkgs, err := packages.Load(cfg, "./types/compkey")
-	if err != nil {
-		panic(err)
+	if len(os.Args) < 2 {
+		fmt.Fprintln(os.Stderr, "usage: pvc check <id> [--tier quick|thorough] | pvc vc <pattern> <funcKey>... | pvc replay <path>")
+		os.Exit(2)
 	}
-	prog, spkgs := ssautil.AllPackages(pkgs, ssa.InstantiateGenerics|ssa.GlobalDebug)
-	prog.Build()
-	fmt.Println(len(spkgs))
+	if d := os.Getenv("PVC_REPO"); d != "" {
+		repoDir = d
+	}
+	if d := os.Getenv("PVC_VERIF"); d != "" {
+		verifDir = d
+	}
+	switch os.Args[1] {
+	case "vc":
+		cmdVC(os.Args[2:])
+	case "check":
+		os.Exit(cmdCheck(os.Args[2:]))
+	case "replay":
+		os.Exit(cmdReplay(os.Args[2:]))
+	case "selftest":
+		os.Exit(cmdSelftest(os.Args[2:]))
+	default:
+		fmt.Fprintln(os.Stderr, "unknown command", os.Args[1])
+		os.Exit(2)
+	}
+}
+
+type oblResult struct {
+	o   *Obl
+	res SolveResult
+	ft  *FT
+}
+
+// runObligations discharges all obligations of the given translations in parallel.
+func runObligations(fts []*FT, dir string, timeoutS int, filter func(*Obl) bool, par int) []oblResult {
+	type job struct {
+		ft *FT
+		o  *Obl
+		q  string
+	}
+	var jobs []job
+	for _, ft := range fts {
+		axs := ft.axiomTerms(ft.axUpTo)
+		for _, o := range ft.obls {
+			if filter != nil && !filter(o) {
+				continue
+			}
+			jobs = append(jobs, job{ft, o, ft.BuildQuery(o, axs)})
+		}
+	}
+	out := make([]oblResult, len(jobs))
+	var wg sync.WaitGroup
+	sem := make(chan bool, par)
+	for i, j := range jobs {
+		wg.Add(1)
+		sem <- true
+		go func(i int, j job) {
+			defer wg.Done()
+			defer func() { <-sem }()
+			if len(j.q) > 1500000 {
+				out[i] = oblResult{j.o, SolveResult{Status: "error", Output: "query too large", Size: len(j.q)}, j.ft}
+				return
+			}
+			out[i] = oblResult{j.o, Solve(j.q, dir, j.o.Name, timeoutS, false), j.ft}
+		}(i, j)
+	}
+	wg.Wait()
+	return out
+}
+
+func cmdVC(args []string) {
+	fs := flag.NewFlagSet("vc", flag.ExitOnError)
+	timeout := fs.Int("t", 10, "timeout seconds")
+	keep := fs.String("dir", "", "directory for smt2 files")
+	verbose := fs.Bool("v", false, "verbose")
+	dump := fs.String("dump", "", "print query of obligation whose name contains this")
+	fs.Parse(args)
+	rest := fs.Args()
+	if len(rest) < 2 {
+		fmt.Fprintln(os.Stderr, "usage: pvc vc [-t N] <pkg pattern> <funcKey|lemmas>...")
+		os.Exit(2)
+	}
+	g, err := LoadGen(repoDir, verifDir, strings.Split(rest[0], ","), nil)
+	if err != nil {
+		fmt.Fprintln(os.Stderr, err)
+		os.Exit(2)
+	}
+	dir := *keep
+	if dir == "" {
+		dir, _ = os.MkdirTemp("", "pvc")
+		defer os.RemoveAll(dir)
+	} else {
+		os.MkdirAll(dir, 0o755)
+	}
+	var fts []*FT
+	for _, key := range rest[1:] {
+		if key == "lemmas" {
+			fts = append(fts, g.LemmaFT(nil)...)
+			continue
+		}
+		k := key
+		if !strings.Contains(k, "/") {
+			k = repoPrefix + "/" + k
+		} else if !strings.HasPrefix(k, "github.com") && !strings.HasPrefix(k, "(") {
+			k = repoPrefix + "/" + k
+		}
+		k = strings.Replace(k, "(*", "(*"+repoPrefix+"/", 1)
+		if strings.HasPrefix(key, "(") && !strings.HasPrefix(key, "(*") {
+			k = "(" + repoPrefix + "/" + key[1:]
+		}
+		if strings.HasPrefix(key, "(*") {
+			k = "(*" + repoPrefix + "/" + key[2:]
+		}
+		fn := g.FindFunc(k)
+		if fn == nil {
+			fmt.Fprintln(os.Stderr, "function not found:", k)
+			var cands []string
+			for n := range g.funcIndex {
+				if strings.Contains(n, key[strings.LastIndex(key, ".")+1:]) && strings.HasPrefix(strings.TrimLeft(n, "(*"), repoPrefix) {
+					cands = append(cands, n)
+				}
+			}
+			sort.Strings(cands)
+			for _, c := range cands {
+				fmt.Fprintln(os.Stderr, "   candidate:", c)
+			}
+			os.Exit(2)
+		}
+		ft := g.TranslateFunction(fn, g.db.Contracts[k])
+		fts = append(fts, ft)
+	}
+	for _, ft := range fts {
+		for _, u := range ft.unsupp {
+			fmt.Println("UNSUPPORTED:", u)
+		}
+		if *verbose {
+			fmt.Println("havoced externals:", sortedStrs(ft.havoced))
+			fmt.Println("assumed contracts:", sortedStrs(ft.assumed))
+			fmt.Println("inlined:", sortedStrs(ft.inlined))
+		}
+	}
+	if *dump != "" {
+		for _, ft := range fts {
+			axs := ft.axiomTerms(nil)
+			for _, o := range ft.obls {
+				if strings.Contains(o.Name, *dump) {
+					fmt.Println(ft.BuildQuery(o, axs))
+					return
+				}
+			}
+		}
+	}
+	res := runObligations(fts, dir, *timeout, nil, 6)
+	ok := 0
+	for _, r := range res {
+		mark := "FAIL"
+		if r.res.Status == "unsat" {
+			mark = "ok  "
+			ok++
+		}
+		fmt.Printf("%s %-70s %s %s %.2fs [%d B] %s\n", mark, strings.ReplaceAll(r.o.Name, repoPrefix+"/", ""), r.res.Status, r.res.Solver, r.res.Secs, r.res.Size, r.o.Pos)
+		if r.res.Status != "unsat" {
+			fmt.Printf("       src: %s\n       solvers: %v\n", r.o.Src, r.res.All)
+		}
+	}
+	fmt.Printf("%d/%d discharged\n", ok, len(res))
 }
